@@ -122,10 +122,14 @@ class LoopSpec:
 
         st = interp.st
         lab = self._label(lid)
+        if hasattr(it, "_setdom"):
+            return self.run_for_set(interp, node, it, env, module, lid)
         if not hasattr(it, "_at"):
             raise Unsupported("%s: iterable %r has no symbolic sequence protocol" % (lab, type(it)))
         n = it._len()
         old = dict(env.vars)
+        from .heap import snapshot as _snap
+        old["__heap__"] = _snap(st)
         for nm, f in self.inv(st, env, SR(z3.IntVal(0)), old):
             st.prove("%s.init.%s" % (lab, nm), f)
         choose = st.fresh("loopbody", "bool")
@@ -159,12 +163,54 @@ class LoopSpec:
                     st.assume(f)
             interp.exec_block(node.orelse, env, module)
 
+    def run_for_set(self, interp, node, it, env, module, lid):
+        """iteration over a set / dict in an order that is not assumed: ghost set `done` of the elements already visited;
+        inv(st, env, done, old) with done a SymSet."""
+        from .pyvc import PathKilled, BreakSig, ContinueSig
+        from .heap import SymSet, fresh_set, empty_set
+
+        st = interp.st
+        lab = self._label(lid)
+        dom = it._setdom()
+        old = dict(env.vars)
+        from .heap import snapshot as _snap
+        old["__heap__"] = _snap(st)
+        for nm, f in self.inv(st, env, SymSet(empty_set()), old):
+            st.prove("%s.init.%s" % (lab, nm), f)
+        choose = st.fresh("loopbody", "bool")
+        if st.fork(choose):
+            self.havoc(st, env, old)
+            done = fresh_set(st, "done")
+            x = st.fresh_int("elem")
+            st.assume(done.subset_of(dom))
+            st.assume(z3.And(dom.mem(x), z3.Not(done.mem(x))))
+            for nm, f in self.inv(st, env, done, old):
+                st.assume(f)
+            interp.assign(node.target, it._elem(SR(x)), env, module)
+            try:
+                interp.exec_block(node.body, env, module)
+            except ContinueSig:
+                pass
+            except BreakSig:
+                return
+            done2 = SymSet(z3.Store(done.arr, x, z3.BoolVal(True)))
+            for nm, f in self.inv(st, env, done2, old):
+                st.prove("%s.preserve.%s" % (lab, nm), f)
+            raise PathKilled()
+        else:
+            self.havoc(st, env, old)
+            for nm, f in self.inv(st, env, dom, old):
+                st.assume(f)
+            interp.exec_block(node.orelse, env, module)
+
     def run_while(self, interp, node, env, module, lid):
         from .pyvc import PathKilled, BreakSig, ContinueSig
 
         st = interp.st
         lab = self._label(lid)
         old = dict(env.vars)
+        from .heap import snapshot as _snap
+        old["__heap__"] = _snap(st)
         for nm, f in self.inv(st, env, None, old):
             st.prove("%s.init.%s" % (lab, nm), f)
         choose = st.fresh("loopbody", "bool")
